@@ -67,3 +67,49 @@ package iscp
 
 //@ typeassume connStatus: lockid(self.cond.L) == lockid(self.RWMutex)
 //@ typeassume Upstream: lockid(self.receivedAck.L) != lockid(self.mu)
+
+// ---------------------------------------------------------------- downstream aliases (C03, C04)
+
+//@ func (*sequenceNumberGenerator).Next
+//@   props C04 C01
+//@   nopanic
+//@   modifies s.Current
+//@   ensures s.Current == (old(s.Current) + 1) % 4294967296 && result == s.Current
+
+// upstream-info alias table: every alias was minted by the generator; no wrap (A5)
+//@ func (*Downstream).assignUpstreamInfoAlias
+//@   props C04
+//@   nopanic
+//@   requires info != nil && d.upstreamInfos != nil && d.upstreamInfoAliasGenerator != nil
+//@   requires forall(a, uint32, imp(has(d.upstreamInfos, a), d.upstreamInfos[a] != nil && a <= d.upstreamInfoAliasGenerator.currentValue))
+//@   requires d.upstreamInfoAliasGenerator.currentValue < 4294967295
+//@   ensures forall(a, uint32, imp(has(d.upstreamInfos, a), d.upstreamInfos[a] != nil && a <= d.upstreamInfoAliasGenerator.currentValue))
+//@   ensures (result == nil) == old(exists(a, uint32, has(d.upstreamInfos, a) && *d.upstreamInfos[a] == *info))
+//@   ensures imp(result == nil, forall(a, uint32, has(d.upstreamInfos, a) == old(has(d.upstreamInfos, a)) && d.upstreamInfos[a] == old(d.upstreamInfos[a])))
+//@   ensures imp(result != nil, exists(a, uint32, !old(has(d.upstreamInfos, a)) && has(d.upstreamInfos, a) && d.upstreamInfos[a] == info && has(result, a) && result[a] == info && forall(b, uint32, imp(b != a, !has(result, b) && has(d.upstreamInfos, b) == old(has(d.upstreamInfos, b)) && d.upstreamInfos[b] == old(d.upstreamInfos[b])))))
+//@   loop 1 invariant forall(a, uint32, imp(visited(a), *d.upstreamInfos[a] != *info))
+
+// data-id alias tables of a downstream: forward and reverse map are mutually inverse,
+// every alias was minted by the generator (<= its current value)
+//@ define didFwd(d): forall(a, uint32, imp(has(d.dataIDAliases, a), d.dataIDAliases[a] != nil && a <= d.dataIDAliasGenerator.currentValue && has(d.revDataIDAliases, *d.dataIDAliases[a]) && d.revDataIDAliases[*d.dataIDAliases[a]] == a))
+//@ define didRev(d): forall(id, message.DataID, imp(has(d.revDataIDAliases, id), has(d.dataIDAliases, d.revDataIDAliases[id]) && *d.dataIDAliases[d.revDataIDAliases[id]] == id))
+
+//@ func (*Downstream).assignDataIDAlias
+//@   props C04 C03
+//@   nopanic
+//@   requires d.dataIDAliases != nil && d.revDataIDAliases != nil && d.dataIDAliasGenerator != nil
+//@   requires forall(i, int, imp(0 <= i && i < len(ids), ids[i] != nil))
+//@   requires d.dataIDAliasGenerator.currentValue + len(ids) < 4294967295
+//@   requires didFwd(d) && didRev(d)
+//@   ensures didFwd(d) && didRev(d)
+//@   ensures forall(a, uint32, imp(old(has(d.dataIDAliases, a)), has(d.dataIDAliases, a) && d.dataIDAliases[a] == old(d.dataIDAliases[a])))
+//@   ensures forall(a, uint32, imp(has(result, a), a > old(d.dataIDAliasGenerator.currentValue) && has(d.dataIDAliases, a) && d.dataIDAliases[a] == result[a]))
+//@   ensures forall(a, uint32, imp(has(d.dataIDAliases, a) && !old(has(d.dataIDAliases, a)), has(result, a)))
+//@   ensures forall(i, int, imp(0 <= i && i < len(ids), has(d.revDataIDAliases, *ids[i])))
+//@   loop 1 invariant res != nil && fresh(res) && d.dataIDAliases == old(d.dataIDAliases) && d.revDataIDAliases == old(d.revDataIDAliases) && d.dataIDAliasGenerator == old(d.dataIDAliasGenerator)
+//@   loop 1 invariant didFwd(d) && didRev(d)
+//@   loop 1 invariant d.dataIDAliasGenerator.currentValue <= old(d.dataIDAliasGenerator.currentValue) + rangeindex + 1 && old(d.dataIDAliasGenerator.currentValue) <= d.dataIDAliasGenerator.currentValue
+//@   loop 1 invariant forall(a, uint32, imp(old(has(d.dataIDAliases, a)), has(d.dataIDAliases, a) && d.dataIDAliases[a] == old(d.dataIDAliases[a])))
+//@   loop 1 invariant forall(a, uint32, imp(has(res, a), a > old(d.dataIDAliasGenerator.currentValue) && has(d.dataIDAliases, a) && d.dataIDAliases[a] == res[a]))
+//@   loop 1 invariant forall(a, uint32, imp(has(d.dataIDAliases, a) && !old(has(d.dataIDAliases, a)), has(res, a)))
+//@   loop 1 invariant forall(i, int, imp(0 <= i && i <= rangeindex, has(d.revDataIDAliases, *ids[i])))
